@@ -169,6 +169,53 @@ impl RateLimiterActor {
 }
 
 /// Internal enum to handle different store types
+/// Verification hooks (compiled only with `--cfg throttlecrab_verif`): the actor loop as an
+/// unspawned future, so that a test scheduler decides when it is polled
+#[cfg(throttlecrab_verif)]
+impl RateLimiterActor {
+    pub fn verif_unspawned_periodic(
+        buffer_size: usize,
+        store: PeriodicStore,
+        metrics: Arc<Metrics>,
+    ) -> (RateLimiterHandle, impl std::future::Future<Output = ()>) {
+        let (tx, rx) = mpsc::channel(buffer_size);
+        let metrics_clone = Arc::clone(&metrics);
+        let fut = async move {
+            let store_type = StoreType::Periodic(RateLimiter::new(store));
+            run_actor(rx, store_type, metrics_clone).await;
+        };
+        (RateLimiterHandle { tx, metrics }, fut)
+    }
+
+    pub fn verif_unspawned_probabilistic(
+        buffer_size: usize,
+        store: ProbabilisticStore,
+        metrics: Arc<Metrics>,
+    ) -> (RateLimiterHandle, impl std::future::Future<Output = ()>) {
+        let (tx, rx) = mpsc::channel(buffer_size);
+        let metrics_clone = Arc::clone(&metrics);
+        let fut = async move {
+            let store_type = StoreType::Probabilistic(RateLimiter::new(store));
+            run_actor(rx, store_type, metrics_clone).await;
+        };
+        (RateLimiterHandle { tx, metrics }, fut)
+    }
+
+    pub fn verif_unspawned_adaptive(
+        buffer_size: usize,
+        store: AdaptiveStore,
+        metrics: Arc<Metrics>,
+    ) -> (RateLimiterHandle, impl std::future::Future<Output = ()>) {
+        let (tx, rx) = mpsc::channel(buffer_size);
+        let metrics_clone = Arc::clone(&metrics);
+        let fut = async move {
+            let store_type = StoreType::Adaptive(RateLimiter::new(store));
+            run_actor(rx, store_type, metrics_clone).await;
+        };
+        (RateLimiterHandle { tx, metrics }, fut)
+    }
+}
+
 enum StoreType {
     Periodic(RateLimiter<PeriodicStore>),
     Probabilistic(RateLimiter<ProbabilisticStore>),
